@@ -275,7 +275,7 @@ def run(tier, seed):
         rep.violation("coq-eval", {"broken": "correspondence evaluation failed", "log": out[-1500:]}, no_input=True)
         f = []
     for j in f[:3]:
-        rep.violation("contextmanager:model-mismatch", {"broken": "correspondence impl<->Model/ContextManager.v asl_aexit (or contextlib<->std_aexit)", "case": texts[j]}, no_input=not fails)
+        rep.violation("contextmanager:model-mismatch", {"broken": "correspondence impl<->Model/ContextManager.v asl_aexit (or contextlib<->std_aexit)", "case": texts[j]}, no_input=not rep.has_failing_input())
     rep.cov["traces_validated_against_impl"] = len(texts)
     rep.cov["exhaustive"] = True
     rep.notes["model_mismatches"] = len(f)
